@@ -990,10 +990,30 @@ def gate_by_patterns(ctx, rule, path, n, k_g, sty, k_and):
         if got != (4242 if valid else 0):
             bad = bad or (words, got)
     rep.evals(len(cases))
-    rep.ob(rule + ".validity-gate", short(path), bad is None,
-           "hand_rank_value_validated on %s gives %s (must be 0 exactly for hands that are not %d distinct real cards, the unvalidated value otherwise)" % ([hex(w) for w in bad[0]] if bad else "", bad[1] if bad else "", n), pdb.where(k_g))
-    rep.note("%s: validity gate of %s not expressed through is_valid(); decided on %d abstract hands (coincidence patterns x non-card subsets)" % (rule, short(path), len(cases)))
-    rep.extra["exhaustive"] = False
+    if bad is not None:
+        rep.ob(rule + ".validity-gate", short(path), False,
+               "hand_rank_value_validated on %s gives %s (must be 0 exactly for hands that are not %d distinct real cards, the unvalidated value otherwise)" % ([hex(w) for w in bad[0]], bad[1], n), pdb.where(k_g))
+        return
+    # the ranking may only run where the hand is valid (it may panic on other words)
+    for cal, snap, gs_ in sm.ex.opaque_calls:
+        if cal != k_and:
+            continue
+        for words, valid in cases:
+            if valid:
+                continue
+            env = {"s%d" % i: w for i, w in enumerate(words)}
+            env["$fn:%s#0" % k_and] = lambda a: C(4242, "u16")
+            env["$fn:" + k_and] = lambda a: agg(("tuple",), (C(4242, "u16"), UNIT))
+            try:
+                reach = all(cval(evaluate(pdb, c, env)) for c in gs_)
+            except (Uncertified, IndexError):
+                reach = True
+            if reach:
+                rep.ob(rule + ".ranking-behind-gate", short(path), False,
+                       "hand_rank_value_validated runs the unvalidated ranking on %s, which is not a valid hand (the ranking may panic there: the validated entry point must return 0 without ranking)" % [hex(w) for w in words], pdb.where(k_g))
+                return
+    # no counterexample on the abstract hands — which are samples of the non-card words, not all of them
+    rep.uncertified(rule + ".validity-gate", "the validity gate of %s is not expressed through is_valid(); it agrees on %d abstract hands (coincidence patterns x subsets of slots holding a non-card word), which does not certify every word" % (short(path), len(cases)), pdb.where(k_g))
 
 
 def check_C01(ctx):
@@ -2660,13 +2680,18 @@ def premise_validators(ctx, containers):
                        n, [states[si][0] for si in badp[0]] if badp else "", [hex(badp[1]["s%d" % i]) for i in range(n)] if badp else ""), pdb.where(key))
             key, sty = ctx.method(path, "contain_blank", HV)
             r = ctx.summ(key, [("r", h)], sty).ret
+            # each slot word may only be compared with BLANK (not with other constants, not with other slots): the result
+            # is then a function of which slots are blank, and every such pattern is folded
+            cb_consts, cb_why = value_use([r], {"s%d" % i for i in range(n)})
+            cross = any(x[0] == "bin" and x[1] in ("Eq", "Ne", "Lt", "Le", "Gt", "Ge") and x[2][0] != "c" and x[3][0] != "c" for x in walk(r))
+            cb_ok = cb_why is None and cb_consts <= {0} and not cross
             bad = 0
-            for blank_at in [None] + list(range(n)):
-                env = {"s%d" % i: (0 if i == blank_at else 7 + i) for i in range(n)}
-                bad += 0 if cval(ctx.fold(r, env)) == (0 if blank_at is None else 1) else 1
-            cb_consts = set()
-            cb_ok = comparison_only(r, {"s%d" % i for i in range(n)}, cb_consts)[0] and cb_consts <= {0}
-            rep.ob("V.contain_blank", short(path), bad == 0 and cb_ok, "contain_blank is not `some slot equals BLANK`", pdb.where(key))
+            if cb_ok:
+                for pat in range(1 << n):
+                    env = {"s%d" % i: (0 if (pat >> i) & 1 else 7 + i) for i in range(n)}
+                    bad += 0 if cval(ctx.fold(r, env)) == (1 if pat else 0) else 1
+            rep.ob("V.contain_blank", short(path), bad == 0 and cb_ok,
+                   "contain_blank is not `some slot equals BLANK`%s" % ("" if cb_ok else " (it compares slot words with other constants or with each other, or computes with them)"), pdb.where(key))
         ctx.guard("V.is_corrupt." + short(path), corrupt)
         def valid(path=path, n=n, h=h):
             key, sty = ctx.method(path, "is_valid", HV)
